@@ -237,6 +237,11 @@ static void sec_geocoords(Ctx& c, uint64_t) {
       std::vector<std::string> t = rd::split_tokens(s);
       if (t.size() != 2 || t[lf ? 1 : 0].empty() || !std::strchr("NS", t[lf ? 1 : 0].back()) || !std::strchr("EW", t[lf ? 0 : 1].back()))
         c.viol("oracle:C10/geocoords/dms-representation-format", cls, base().str("repr", s));
+      else for (int i = 0; i < 2; ++i) {      // documented precision table: trailing unit and number of decimals
+        bool islat = (i == 0) == (lf == 0); Printed P; std::string why;
+        if (!read_encoded(t[i], tr, sep, islat ? DMS::LATITUDE : DMS::LONGITUDE, P, why) || P.decimals != dec)
+          c.viol("oracle:C10/geocoords/dms-representation-format", cls, base().i("prec", prec).str("repr", s).str("why", why).i("want_decimals", dec));
+      }
       if (c.want_sample(cls)) c.sample(cls, base().i("prec", prec).str("repr", s));
     }
     // ---- UTM/UPS (standard, hemisphere override, alternate zone)
@@ -275,6 +280,12 @@ static void sec_geocoords(Ctx& c, uint64_t) {
       std::vector<std::string> t = rd::split_tokens(s); rd::ZoneResult Z;
       if (t.size() != 3 || (Z = rd::zone_ref(t[0])).st != rd::ACCEPT || Z.zone != z0 || (abbrev ? t[0].size() > 3 : t[0].size() < 5))
         c.viol("oracle:C10/geocoords/utmups-representation-format", cls, base().i("prec", prec).str("repr", s));
+      else for (int i = 1; i < 3; ++i) {      // fixed format with max(0,prec) decimals; negative precision ends in -prec zeros
+        std::string u = t[i][0] == '-' ? t[i].substr(1) : t[i]; rd::Q D; int ni = 0, nf = 0;
+        bool okf = rd::dec_to_q(u, D, &ni, &nf) && nf == std::max(0, p) && (nf > 0) == (u.find('.') != std::string::npos);
+        if (okf && p < 0 && !D.is_zero()) okf = (int)u.size() > -p && u.substr(u.size() - (size_t)(-p)) == std::string((size_t)(-p), '0');
+        if (!okf) c.viol("oracle:C10/geocoords/utmups-representation-format", cls, base().i("prec", prec).str("repr", s));
+      }
       if (c.want_sample(cls)) c.sample(cls, base().i("prec", prec).str("repr", s));
     }
     // ---- MGRS (standard and alternate zone); truncation, so the centre of the cell is within half a unit
@@ -306,7 +317,8 @@ static void sec_geocoords(Ctx& c, uint64_t) {
         && g3.Northing() <= n0 + 4 * rd::ulp(1e7) && n0 < g3.Northing() + u * (1 + 1e-12) + 4 * rd::ulp(1e7);
       if (!ok) c.viol("law:C10/geocoords/mgrs-representation-roundtrip", cls, base().i("prec", prec).str("repr", s).i("zone2", g2.Zone()).b("northp2", g2.Northp())
                       .f("center_e", g2.Easting()).f("center_n", g2.Northing()).f("corner_e", g3.Easting()).f("corner_n", g3.Northing()).f("want_e", e0).f("want_n", n0));
-      if (!mgrs_lexical(s)) c.viol("oracle:C10/geocoords/mgrs-representation-format", cls, base().str("repr", s));
+      { size_t nd = 0; while (nd < s.size() && std::isdigit((unsigned char)s[s.size() - 1 - nd])) ++nd;      // 2 x (prec+5) digits after the letters
+        if (!mgrs_lexical(s) || (int)nd != 2 * p) c.viol("oracle:C10/geocoords/mgrs-representation-format", cls, base().i("prec", prec).str("repr", s).i("want_digits", 2 * p)); }
       if (c.want_sample(cls)) c.sample(cls, base().i("prec", prec).str("repr", s));
     }
   }
